@@ -16,7 +16,7 @@ import time
 
 VERIF = os.path.dirname(os.path.abspath(__file__))
 sys.path.insert(0, VERIF)
-from vlib.props import PROPS  # noqa: E402
+from vlib.props import PROPS, SKIP_HARNESSES  # noqa: E402
 from vlib.verus_runner import run_verus_unit  # noqa: E402
 from vlib.kani_runner import build_kani_unit, run_harnesses, confirm_playback  # noqa: E402
 
@@ -135,13 +135,18 @@ def main():
     # ---------------- Kani units
     kunits = []
     selected = []
+    skipped_notes = []
     for unit in cfg.get('kani', []):
         ku = build_kani_unit(unit)
         kunits.append(ku)
         if ku.status == 'undecided':
             undecided.append(f'kani unit {unit}: {ku.reason}')
             continue
-        sel = [h for h in ku.harnesses if prop in h.props and (tier == 'thorough' or h.tier == 'quick') and h.kind != 'twin']
+        sel = [h for h in ku.harnesses if prop in h.props and (tier == 'thorough' or h.tier == 'quick') and h.kind != 'twin'
+               and (unit, h.name) not in SKIP_HARNESSES]
+        for h in ku.harnesses:
+            if prop in h.props and (unit, h.name) in SKIP_HARNESSES:
+                skipped_notes.append(f'kani harness {unit}::{h.name} not run: {SKIP_HARNESSES[(unit, h.name)]}')
         selected.append((ku, sel))
     # run all selected harnesses, unit by unit (each unit in parallel inside)
     for ku, sel in selected:
@@ -298,7 +303,7 @@ def main():
         functions_under_contract=sorted(set(fn_under_contract)),
         bounded=bounded,
         solver_time_s=round(solver_s, 2),
-        not_decided_clauses=cfg.get('not_decided', []),
+        not_decided_clauses=cfg.get('not_decided', []) + skipped_notes,
         undecided=undecided,
         known_findings=[o for o, _ in known_hits],
         explanation=('obligations = Verus function queries (exec/proof/spec-termination) + CBMC checks of Kani harnesses that are '
